@@ -271,6 +271,14 @@ def monitor_c11(ctx, tr):
             ctx.counterexample("fragment-without-ack-wait", dict(inp, step=step), "one data frame per step", ws,
                                "a data frame was written without waiting for the previous frame's acknowledgement or expiry")
             return
+    # ... and a continuation fragment is only ever written by an event that ends the previous fragment's wait: the
+    # matching acknowledgement or the expiry of the wait - not a cancellation, a response, a new request
+    for (step, rid, k, raw) in tr.writes:
+        if not (raw[5] & 0x40) and step < len(tr.labels) and tr.labels[step].split(":")[0] not in ("ack", "tick"):
+            ctx.counterexample("fragment-not-after-ack-or-expiry", dict(inp, step=step, event=tr.labels[step]),
+                               "written when the previous fragment is acknowledged or its wait expires", (rid, k),
+                               "a continuation fragment was written by an event that neither acknowledged the previous fragment nor expired its wait")
+            return
     # a response is only awaited (the request only returns) after its last fragment went out
     last_written = {rid: step for (step, rid, k, raw) in tr.writes if raw[5] & 0x80}
     for s, st in enumerate(tr.steps):
